@@ -4,7 +4,7 @@
               truth (records, chromosome sizes, expression tree, dense NumPy evaluation) and the Spec
               definitions of Model/C09.v only. *)
 From Coq Require Import ZArith List Bool.
-From BNP Require Export Base.Prims Model.C09.
+From BNP Require Export Base.Prims Model.C09 Model.C09_pileup.
 Import ListNotations.
 Open Scope Z_scope.
 
@@ -81,7 +81,8 @@ Definition model_leaf (sizes : list Z) (l : leaf) : option (kind * rle) :=
   match lf_tag l with
   | 0 => match to_global sizes (lf_recs l) with Some g => from_bedgraph (lf_kind l) g tot | None => None end
   | 1 => match to_global sizes (lf_recs l) with Some g => boolean_mask g tot | None => None end
-  | 2 => match to_global sizes (lf_recs l) with Some g => pileup g tot | None => None end
+  (* the code's event pipeline (Model/C09_pileup.v pileup_events) up to pileup_row_limit rows, the abstract coverage model beyond *)
+  | 2 => match to_global sizes (lf_recs l) with Some g => pileup_in_force g tot | None => None end
   | 3 => from_intervals_scalar (map (fun r => fst (fst r)) (flat_recs l)) (map (fun r => snd (fst r)) (flat_recs l))
                                tot (lf_kind l) (lf_value l) (lf_default l)
   | _ => from_intervals_array (map (fun r => fst (fst r)) (flat_recs l)) (map (fun r => snd (fst r)) (flat_recs l))
